@@ -105,7 +105,7 @@ example : Seps (q " /* c */ /**/\n") :=
 theorem C01_read_empty_record {F} (env : Env F) (strict : Bool) (seps : List Byte) (hs : Seps seps)
     (l rest : List Byte) (sk : Bool) :
     instSTEPread env strict [] (G l (40 :: (seps ++ 41 :: rest)) sk) =
-      .ok ⟨.null, [], G (41 :: (seps.reverse ++ 40 :: l)) rest sk⟩ := by
+      .ok ⟨.null, [], G (41 :: (seps.reverse ++ 40 :: l)) rest sk, .null⟩ := by
   unfold instSTEPread
   rw [show (G l (40 :: (seps ++ 41 :: rest)) sk).ws = G l (40 :: (seps ++ 41 :: rest)) sk from ws_good0 l 40 _ sk (by decide)]
   simp only [bind, Except.bind, pure, Except.pure]
@@ -130,7 +130,7 @@ theorem C01_source_skips_comments_in_aggregates : Generated.rwCfg.aggrSkipsComme
 theorem C01_read_record_of_params {F} (env : Env F) (strict : Bool) (ps : List (Param F)) (hne : ps ≠ [])
     (hok : ∀ p ∈ ps, ParamOK env strict p) (l : List Byte) (sk : Bool) (rest : List Byte) :
     ∃ sk', instSTEPread env strict (ps.map (·.a)) (G l (40 :: (renderParams ps ++ rest)) sk) =
-      .ok ⟨.null, ps.map (·.v), G ((40 :: renderParams ps).reverse ++ l) rest sk'⟩ :=
+      .ok ⟨.null, ps.map (·.v), G ((40 :: renderParams ps).reverse ++ l) rest sk', .null⟩ :=
   instSTEPread_params env strict ps hne hok l sk rest
 
 /-- the values that may stand between the parentheses of a typed SELECT value `KEYWORD(value)`: INTEGER, REAL (also for
@@ -442,7 +442,7 @@ theorem covered_rd {F} (env : Env F) (strict : Bool) (hcfg : env.lex.criSkipsCom
 theorem C01_read_record_partial {F} (env : Env F) (strict : Bool) (hcfg : env.lex.criSkipsComments = true)
     (hagg : env.cfg.aggrSkipsComments = true) (ps : List (Param F)) (hne : ps ≠ []) (hc : ∀ p ∈ ps, Covered env p) (l : List Byte) (sk : Bool) (rest : List Byte) :
     ∃ sk', instSTEPread env strict (ps.map (·.a)) (G l (40 :: (renderParams ps ++ rest)) sk) =
-      .ok ⟨.null, ps.map (·.v), G ((40 :: renderParams ps).reverse ++ l) rest sk'⟩ := by
+      .ok ⟨.null, ps.map (·.v), G ((40 :: renderParams ps).reverse ++ l) rest sk', .null⟩ := by
   exact instSTEPread_params env strict ps hne (fun p hp => covered_ok env strict hcfg hagg p (hc p hp)) l sk rest
 
 /-- the hypotheses are satisfiable: `( /* c */ -17 /**/ , $ )` for (INTEGER, OPTIONAL REAL) -/
@@ -824,7 +824,7 @@ theorem paramsOf_spec {F} (env : Env F) (cfg : RWCfg) (hsa : cfg.stringNodeAppen
 theorem C01_record_write_read_partial {F} (env : Env F) (strict : Bool) (hcfg : env.lex.criSkipsComments = true)
     (hagg : env.cfg.aggrSkipsComments = true) (cfg : RWCfg) (hsa : cfg.stringNodeAppends = false) (as : List AttrD) (vs : List (MVal F)) (h : StorableRec env as vs) (l : List Byte) (sk : Bool) (rest : List Byte) :
     ∃ s', instSTEPread env strict as
-        (G l (40 :: (writeAttrsSimple env.ops cfg env.dict 0 as vs ++ 41 :: rest)) sk) = .ok ⟨.null, vs, s'⟩ := by
+        (G l (40 :: (writeAttrsSimple env.ops cfg env.dict 0 as vs ++ 41 :: rest)) sk) = .ok ⟨.null, vs, s', .null⟩ := by
   obtain ⟨hne, hma, hmv, hcov, _, h0⟩ := paramsOf_spec env cfg hsa env.dict rfl as vs h
   obtain ⟨sk', hr⟩ := C01_read_record_partial env strict hcfg hagg (paramsOf env.ops cfg env.dict as vs) hne hcov l sk rest
   rw [hma, hmv] at hr
